@@ -1,0 +1,40 @@
+//go:build verif
+
+package cleaner
+
+// Contracts checked by /verif (lsvc). This file contains comments only and is
+// compiled only with the build tag "verif".
+//
+// Ghost: ghost_ndelete counts Delete calls issued to the bucket.
+
+//@ immutable Worker.conf, Worker.prefix, Worker.name
+
+//@ func New
+//@   ensures carries_config: r0 != nil && r0.conf.Enabled == cc.Enabled
+
+//@ func (w *Worker) GetCommitted
+//@   trusted
+//@   function
+//@   reads ghost_committedEpoch
+
+//@ func (w *Worker) SetCommitted
+//@   trusted
+//@   modifies ghost_committedEpoch
+//@   ghost nsetcommitted := ghost_nsetcommitted + 1
+
+// First filter of a cleaning run: a snapshot stays a removal candidate only if
+// it was first seen in an earlier run and more than the keep interval ago.
+//@ func (w *Worker) RunOnce$2
+//@   ensures keep_interval: r0 ==> exists && int64(now.Sub(firstSeenTime)) > int64(w.conf.MustKeepInterval)
+
+// Second filter: the first (newest) snapshot of an instance that is still a
+// candidate is never passed on for deletion here.
+
+// One cleaning run: disabled => nothing; a List error returns before any
+// Delete; a stale instance's newest snapshot is deleted only if it is not
+// newer than what this instance merged and re-published (GetCommitted).
+//@ func (w *Worker) RunOnce
+//@   modifies *
+//@   at_call simpleblob.Interface.Delete#1 assert merge_proven: !ni.Timestamp.After(lastCommitted)
+//@   ensures disabled_does_nothing: !w.conf.Enabled ==> r0 == nil && ghost_ndelete == old(ghost_ndelete)
+//@   ensures list_error_no_delete: r0 != nil ==> ghost_ndelete == old(ghost_ndelete)
